@@ -417,7 +417,8 @@ def check_zone(ctx, what, z, spec, instants, expect, tag):
         except Exception as ex:
             got = ("exception", type(ex).__name__, None, None); wall_ok = False
         ctx.case((spec["s"], tag, to_secs(u)), nontrivial=near)
-        want = (eoff, "BBB" if eisdst else "AAA", eisdst, (spec["dst"] - spec["std"]) if eisdst else 0)
+        an, bn = spec.get("abbr", ("AAA", "BBB"))
+        want = (eoff, bn if eisdst else an, eisdst, (spec["dst"] - spec["std"]) if eisdst else 0)
         if got != want or not wall_ok:
             known = what in ("tzstr", "tzrange") and in_d_c08(spec) and explained_by_d_c08(ctx, z, spec, u, got, wall_ok)
             ctx.count("d_c08_explained_failures" if known else "unexplained_posix_failures")
@@ -813,4 +814,47 @@ def correspondence(ctx):
 TRUSTED = TRUSTED + [
     "one object, many calls: harness/tzshared.py — history stream on the process-wide tzstr singleton and on a tzrange whose rules overflow in year 9999 / underflow in year 1 (every answer compared with a fresh object's), two-thread statement-level schedules (sys.settrace) over transitions/_isdst/_naive_isdst/utcoffset/dst/tzname/fromutc, and an AST audit that no method of tzrange/tzstr/tzrangebase/tzlocal writes an attribute outside __init__ (C08.range_answers_pure is a statement about the translated functions, which take no state)",
 ]
+# --- end of the appended block
+
+
+# --- GMT / UTC as the standard abbreviation WITH a daylight part (wt-tzrule, second wave): `GMT+3BST,M3.5.0,M10.5.0` means +3 h in winter
+# and +4 h in summer (dateutil flips the sign of the standard offset for these two names unless posix_offset is given; the implicit
+# daylight offset is the FLIPPED standard offset + 1 h, and the end rule is converted with that saving).  The generated specs of the main
+# sweep all call their zones AAA/BBB, so the interplay of the sign flip with the daylight part was never swept.
+def gen_gmt_spec(rng):
+    base = gen_spec(rng)
+    while in_d_c08(base) or base["dst"] - base["std"] != 3600:
+        base = gen_spec(rng)
+    name = rng.choice(["GMT", "UTC"])
+    h = rng.choice([-11, -9, -5, -3, -1, 1, 2, 3, 5, 8, 10, 12])
+    posix = rng.random() < 0.3
+    rules = base["s"].split(",", 1)[1]
+    s = "%s%+d%s,%s" % (name, h, "BBB", rules)
+    std = (-h if posix else h) * 3600
+    spec = dict(base, s=s, std=std, dst=std + 3600, abbr=(name, "BBB"), posix_offset=posix)
+    return spec
+
+def oracle_gmt_dst(ctx):
+    from dateutil import tz
+    rng = ctx.subrng("gmt-dst")
+    for k in range(ctx.budget(12, 200)):
+        spec = gen_gmt_spec(rng)
+        instants = probe_instants(spec, (2020, 2021), 0)
+        expect = ctx.driver(posix_query(spec, [u for u, _ in instants]))
+        with warnings.catch_warnings():
+            warnings.simplefilter("ignore")
+            try:
+                z = tz.tzstr.instance(spec["s"], posix_offset=spec["posix_offset"])
+            except Exception as ex:
+                ctx.case((spec["s"], "ctor"))
+                ctx.violation("tzstr(%r, posix_offset=%r) raised %s" % (spec["s"], spec["posix_offset"], type(ex).__name__), {"kind": "ctor", "s": spec["s"]}, repr(ex))
+                continue
+        ctx.count("gmt_utc_with_daylight_part" + ("_posix_offset" if spec["posix_offset"] else ""))
+        check_zone(ctx, "tzstr", z, spec, instants, expect, "tzstr-gmt")
+
+_oracle_without_gmt = oracle
+
+def oracle(ctx):
+    _oracle_without_gmt(ctx)
+    oracle_gmt_dst(ctx)
 # --- end of the appended block
